@@ -74,7 +74,7 @@ func realSx(r *Result) *sx.Node {
 		lg.List = append(lg.List, sx.K("ev", sx.A(e.Stage), sx.B(e.Post), at, pa, sx.H(e.SelPath), wr))
 	}
 	return sx.K("real", sx.K("st", sx.N(r.Status)), sx.K("ce", sx.H(r.CE)), sx.K("coded", sx.B(r.Coded)), sx.K("body", sx.H(r.Body)),
-		sx.K("complete", sx.B(r.Complete)), hdr, lg, sx.K("esc", esc), sx.K("recov", sx.N(r.Recov)), sx.K("acq", sx.N(r.Acq)), sx.K("rel", sx.N(r.Rel)), sx.K("dbl", sx.N(r.DblRel)), sx.K("recovd", sx.N(r.RecovDefault)))
+		sx.K("complete", sx.B(r.Complete)), hdr, lg, sx.K("esc", esc), sx.K("recov", sx.N(r.Recov)), sx.K("acq", sx.N(r.Acq+r.RdAcq)), sx.K("rel", sx.N(r.Rel+r.RdRel)), sx.K("dbl", sx.N(r.DblRel)), sx.K("recovd", sx.N(r.RecovDefault)))
 }
 
 // RunOne serves a history on the real code and on the model.
